@@ -45,8 +45,6 @@ class AllocatorAwarePointer
 
     Impl impl_;
 
-    constexpr auto allocate() { return AllocatorTraits::allocate(get_allocator(), size()); }
-
     constexpr void deallocate() noexcept
     {
         if (get())
@@ -109,9 +107,11 @@ class AllocatorAwarePointer
                 if (get_allocator() != other.get_allocator())
                 {
                     deallocate();
+                    get() = nullptr;
+                    size() = {};
                     propagate_on_container_copy_assignment(other);
+                    get() = AllocatorTraits::allocate(get_allocator(), other.size());
                     size() = other.size();
-                    get() = allocate();
                     return *this;
                 }
             }
@@ -119,8 +119,10 @@ class AllocatorAwarePointer
             if (size() < other.size() || !get())
             {
                 deallocate();
+                get() = nullptr;
+                size() = {};
+                get() = AllocatorTraits::allocate(get_allocator(), other.size());
                 size() = other.size();
-                get() = allocate();
             }
         }
         return *this;
